@@ -614,6 +614,7 @@ fn emitter_eq(a: &SoundEmitter, b: &SoundEmitter) -> bool {
 }
 
 /// texture layers + sound emitters: counts, offsets, content, stable re-serialisation
+// NOT REGISTERED in cat_C14.py: did not finish on this machine (see NOTES.md, "Not finished"); kept for a faster solver / more memory
 #[kani::proof]
 #[kani::stub(std::fmt::format, vio::fmt_stub)]
 #[kani::stub(std::any::TypeId::eq, typeid_ne)]
@@ -650,6 +651,7 @@ fn c14e_mcnk_layers_emitters() {
 }
 
 /// MCRF object references: survive when the header counts describe the list
+// NOT REGISTERED in cat_C14.py: did not finish on this machine (see NOTES.md, "Not finished"); kept for a faster solver / more memory
 #[kani::proof]
 #[kani::stub(std::fmt::format, vio::fmt_stub)]
 #[kani::stub(std::any::TypeId::eq, typeid_ne)]
@@ -694,6 +696,7 @@ fn concrete_refs_mcnk(n_doodad_refs: u32) -> McnkChunk {
 }
 
 /// witness KF-C14-mcrf-phantom: one MCRF with 2 references, parsed and written again, is 32 bytes longer
+// NOT REGISTERED in cat_C14.py: did not finish on this machine (see NOTES.md, "Not finished"); kept for a faster solver / more memory
 #[kani::proof]
 #[kani::stub(std::fmt::format, vio::fmt_stub)]
 #[kani::stub(std::any::TypeId::eq, typeid_ne)]
@@ -776,6 +779,7 @@ fn colors_any() -> MccvChunk {
 }
 
 /// heights + normals: the two offsets packed into the multipurpose field point at MCVT / MCNR, every vertex survives
+// NOT REGISTERED in cat_C14.py: did not finish on this machine (see NOTES.md, "Not finished"); kept for a faster solver / more memory
 #[kani::proof]
 #[kani::stub(std::fmt::format, vio::fmt_stub)]
 #[kani::stub(std::any::TypeId::eq, typeid_ne)]
@@ -809,6 +813,7 @@ fn c14e_mcnk_heights_normals() {
 }
 
 /// vertex colours: survive when MCNK flag 0x40 (has_mccv) is set
+// NOT REGISTERED in cat_C14.py: did not finish on this machine (see NOTES.md, "Not finished"); kept for a faster solver / more memory
 #[kani::proof]
 #[kani::stub(std::fmt::format, vio::fmt_stub)]
 #[kani::stub(std::any::TypeId::eq, typeid_ne)]
@@ -866,6 +871,7 @@ fn liquid_any() -> MclqChunk {
 }
 
 /// MCLQ: ofs_liquid points at MCLQ, size_liquid counts the 8 header bytes (format), all 81 vertices and 64 tile flags survive
+// NOT REGISTERED in cat_C14.py: did not finish on this machine (see NOTES.md, "Not finished"); kept for a faster solver / more memory
 #[kani::proof]
 #[kani::stub(std::fmt::format, vio::fmt_stub)]
 #[kani::stub(std::any::TypeId::eq, typeid_ne)]
